@@ -288,6 +288,14 @@ static void classify_death(int status, const std::string &err, Violation &v)
                 size_t f = head.rfind(": ");
                 v.kind = "crash:assert";
                 v.site = f == std::string::npos ? head : head.substr(f + 2);
+                { // "int fn(args)" (clang) or "fn" (gcc) -> fn
+                    size_t par = v.site.find('(');
+                    if (par != std::string::npos)
+                        v.site.resize(par);
+                    size_t sp = v.site.find_last_of(" *");
+                    if (sp != std::string::npos)
+                        v.site = v.site.substr(sp + 1);
+                }
                 v.detail = ln;
                 return;
             }
@@ -367,6 +375,7 @@ struct Exec {
     int devnull = -1;
     bool harness_fault = false;
     std::string harness_msg;
+    std::string last_err; // captured stderr of the last child that died
 };
 
 static void exec_init(Exec &x, World *w, const std::string &prop, int tier)
@@ -457,6 +466,7 @@ static void run_specs(Exec &x, const std::vector<RunSpec> &specs, int out_fd)
         const RunSpec &sp = specs[from];
         int phase = x.sh->phase;
         std::string err = read_fd_all(x.errfd);
+        x.last_err = err;
         if (phase == 2) { // died while writing its line: harness problem
             x.harness_fault = true;
             x.harness_msg = "child died while reporting run " + std::to_string(sp.idx);
@@ -836,6 +846,8 @@ static int do_replay(const std::string &path, bool verbose)
         for (auto &v : viols_of(line))
             printf("  violation %s op=%d: %s\n", v.cls().c_str(), v.op, v.detail.c_str());
     }
+    if (getenv("VERIF_SHOW_STDERR") && !x.last_err.empty())
+        printf("---- captured stderr of the dying child ----\n%s\n----\n", x.last_err.c_str());
     if (same) {
         bool exact = line.gets("ed") == rep["expect"].gets("digest");
         printf("VIOLATION property=%s replay=%s\n", prop.c_str(), path.c_str());
